@@ -6,6 +6,7 @@
 package main
 
 import (
+	"runtime/debug"
 	"encoding/json"
 	"flag"
 	"fmt"
@@ -204,6 +205,9 @@ func runUnit(file, unit, filterS, pkg string, attrs map[string]string, smtdir st
 				defer func() {
 					if r := recover(); r != nil {
 						fr.GenPanic = fmt.Sprint(r)
+						if os.Getenv("GOVC_DEBUG") != "" {
+							fmt.Fprintf(os.Stderr, "%s\n", debug.Stack())
+						}
 					}
 				}()
 				g.run()
